@@ -5640,11 +5640,20 @@ class Parser:
         return self.expression(exp.Qualify(this=self._parse_disjunction()))
 
     def _parse_connect_with_prior(self) -> exp.Expr | None:
+        previous = self.NO_PAREN_FUNCTION_PARSERS.get("PRIOR")
         self.NO_PAREN_FUNCTION_PARSERS["PRIOR"] = lambda self: self.expression(
             exp.Prior(this=self._parse_bitwise())
         )
-        connect = self._parse_disjunction()
-        self.NO_PAREN_FUNCTION_PARSERS.pop("PRIOR")
+
+        try:
+            connect = self._parse_disjunction()
+        finally:
+            # The table is shared by every parser: restore it also when parsing the condition fails
+            if previous is None:
+                self.NO_PAREN_FUNCTION_PARSERS.pop("PRIOR", None)
+            else:
+                self.NO_PAREN_FUNCTION_PARSERS["PRIOR"] = previous
+
         return connect
 
     def _parse_connect(self, skip_start_token: bool = False) -> exp.Connect | None:
